@@ -50,7 +50,8 @@ struct c13_session : public vsim_session {
     return -1;
   }
 
-  // canonical numbering: biases (module order), variables (module order), then depth-first through children
+  // canonical numbering: variables (module order) with their subtrees depth-first, then biases (module order):
+  // deleting a bias removes one number and shifts only bias numbers
   std::vector<colvardeps *> objects()
   {
     std::vector<colvardeps *> objs;
@@ -62,8 +63,8 @@ struct c13_session : public vsim_session {
       for (colvardeps *c : d->children) visit(c);
     };
     colvarmodule *cv = proxy->colvars;
-    for (colvarbias *b : cv->biases) visit(b);
     for (colvar *c : *(cv->variables())) visit(c);
+    for (colvarbias *b : cv->biases) visit(b);
     return objs;
   }
 
